@@ -343,4 +343,67 @@ pub fn run(ctx: &mut Ctx) {
         ctx.case_done(fnv(format!("{:?}", spec).as_bytes()), n > 0);
     }
     ctx.add("worker_restarts", sup.restarts);
+    // ---- C05, one more base: an entry store whose checked block of entries exceeds 16 MiB (blocks of that size
+    // go through the reader's large-region path).  One bit of one stored value is flipped; the entries are read
+    // back through the directory-pack reader.  Oracle only (the pack is too large to replay on the model): an
+    // error is fine, the values written are fine (the flip missed), any other value is a silent decode.
+    let my = case;
+    if ctx.wants(my) {
+        giant_block_case(ctx, my, &mut rng.fork(my));
+    }
+}
+
+fn giant_block_case(ctx: &mut Ctx, my: u64, crng: &mut Rng) {
+    use crate::dirgen::{self, DirSpec, EntrySpec, IndexSpec, PDef, V};
+    let names: [&'static str; 7] = ["a0", "a1", "a2", "a3", "a4", "a5", "a6"];
+    let mut common: Vec<(&'static str, PDef)> = names.iter().map(|n| (*n, PDef::Array { fixed: 31, store: 0 })).collect();
+    common.push(("num", PDef::UInt));
+    // 7 x (1 length byte + 31 inline bytes + 1 key byte) + 8 = 239 bytes per entry
+    let n = (1usize << 24) / 239 + 600 + crng.below(500) as usize;
+    let mut entries = Vec::with_capacity(n);
+    for i in 0..n as u64 {
+        let mut values: Vec<(&'static str, V)> = names.iter().enumerate().map(|(k, nm)| (*nm, V::A(format!("{:02}-{:010}-{:015}", k, i, i * 7919 + k as u64).into_bytes()))).collect();
+        values.push(("num", V::U(0xC0DE_0000_0000_0000 + i)));
+        entries.push(EntrySpec { variant: None, values });
+    }
+    let spec = DirSpec { stores: vec![false], common, variants: vec![], sort_keys: None, entries, indexes: vec![IndexSpec { name: "all".into(), offset: 0, count: n as u32 }], label: "giant-entry-block".into() };
+    let dir = ctx.work.join("c05-giant");
+    let built = match util::guarded(|| dirgen::build(&dir, &spec)) {
+        Ok(Ok(b)) => b,
+        other => {
+            ctx.fail(my, "create", &format!("creation of the giant entry store failed: {:?}", other.err()));
+            return;
+        }
+    };
+    let order: Vec<usize> = (0..spec.entries.len()).collect();
+    let expected = dirgen::expected_dump(&spec, &order, &|t| t as u64);
+    let mut file = std::fs::read(&built.path).unwrap();
+    // locate the inline bytes of a value in the second half of the entries and flip one bit of them
+    let victim = (n as u64 * 3) / 4 + crng.below(1000);
+    let needle = format!("{:02}-{:010}-{:015}", 3, victim, victim * 7919 + 3).into_bytes();
+    let pos = file.windows(needle.len()).position(|w| w == &needle[..]);
+    let pos = match pos {
+        Some(p) => p,
+        None => {
+            ctx.fail(my, "framing", "the inline bytes of an entry of the giant store were not found in the file");
+            return;
+        }
+    };
+    file[pos + 5] ^= 0x01;
+    std::fs::write(&built.path, &file).unwrap();
+    let got = dirgen::dump(&built.path, &spec);
+    ctx.count("giant_block_cases");
+    ctx.add("giant_block_bytes", (n * 239) as u64);
+    let is_error = got.starts_with("err") || got.contains("{err") || got.contains("panic");
+    if !is_error && got != expected {
+        let ge: Vec<&str> = got.split(|c| c == ';' || c == '{' || c == '}').collect();
+        let ee: Vec<&str> = expected.split(|c| c == ';' || c == '{' || c == '}').collect();
+        let k = ge.iter().zip(ee.iter()).position(|(a, b)| a != b).unwrap_or(0);
+        ctx.fail(my, "c05-structure-giant-block", &format!("one bit flipped inside a checked block of {} bytes (entry {} of {}): the reader silently returns `{}` where `{}` was written", n * 239, victim, n, ge.get(k).unwrap_or(&"").chars().take(120).collect::<String>(), ee.get(k).unwrap_or(&"").chars().take(120).collect::<String>()));
+    }
+    if got.contains("panic") {
+        ctx.count("giant_block_read_panics");
+    }
+    ctx.case_done(fnv(b"giant") ^ n as u64, true);
+    let _ = std::fs::remove_dir_all(&dir);
 }
